@@ -111,15 +111,27 @@ func readPoolOf(db database.Database) *sql.DB {
 // ---------------------------------------------------------------- fake reader
 
 type fakeReader struct {
-	ctx    context.Context
-	tx     database.Tx
-	data   []byte
-	off    int
-	closed bool
+	ctx  context.Context
+	tx   database.Tx
+	data []byte
+	off  int
+
+	mu      sync.Mutex
+	closed  bool
+	gate    chan struct{} // armed for ConcClose: Close blocks until `want` callers are inside it
+	want    int
+	inside  int
+	nclosed int
+}
+
+func (f *fakeReader) isClosed() bool {
+	f.mu.Lock()
+	defer f.mu.Unlock()
+	return f.closed
 }
 
 func (f *fakeReader) Read(p []byte) (int, error) {
-	if f.closed {
+	if f.isClosed() {
 		return 0, io.EOF
 	}
 	var one int
@@ -134,7 +146,42 @@ func (f *fakeReader) Read(p []byte) (int, error) {
 	return n, nil
 }
 
-func (f *fakeReader) Close() error { f.closed = true; return nil }
+// arm makes the next Close calls rendezvous: each blocks inside Close until
+// `want` callers have entered it.  The wait is bounded (20 ms) so that code
+// which serialises Close calls before the inner Close still terminates; no
+// verdict depends on the bound.
+func (f *fakeReader) arm(want int) {
+	f.mu.Lock()
+	f.gate, f.want, f.inside = make(chan struct{}), want, 0
+	f.mu.Unlock()
+}
+
+func (f *fakeReader) disarm() {
+	f.mu.Lock()
+	f.gate = nil
+	f.mu.Unlock()
+}
+
+func (f *fakeReader) Close() error {
+	f.mu.Lock()
+	f.closed = true
+	f.nclosed++
+	gate := f.gate
+	if gate != nil {
+		f.inside++
+		if f.inside == f.want {
+			close(gate)
+		}
+	}
+	f.mu.Unlock()
+	if gate != nil {
+		select {
+		case <-gate:
+		case <-time.After(20 * time.Millisecond):
+		}
+	}
+	return nil
+}
 
 // ---------------------------------------------------------------- environment
 
@@ -147,6 +194,7 @@ type env struct {
 	bucket storage.BucketName
 	key    storage.ObjectKey
 	// direct mode
+	fakes   []*fakeReader // the inner readers of the current program
 	ddb     *oneConnDB
 	dir     string
 	ndirect int
@@ -220,11 +268,14 @@ func errClass(err error) string {
 // open performs the call under test and returns the readers.
 func (e *env) open(p *program) ([]io.ReadCloser, error) {
 	ctx := context.Background()
+	e.fakes = nil
 	if p.Mode == "direct" {
 		return database.WithTxReadClosers(ctx, e.ddb, &sql.TxOptions{ReadOnly: true}, func(ctx context.Context, tx database.Tx) ([]io.ReadCloser, error) {
 			rs := make([]io.ReadCloser, 0, p.K)
 			for i := 0; i < p.K; i++ {
-				rs = append(rs, &fakeReader{ctx: ctx, tx: tx, data: e.content[p.Ranges[i][0]:p.Ranges[i][1]]})
+				fr := &fakeReader{ctx: ctx, tx: tx, data: e.content[p.Ranges[i][0]:p.Ranges[i][1]]}
+				e.fakes = append(e.fakes, fr)
+				rs = append(rs, fr)
 			}
 			if p.Fnerr {
 				for _, r := range rs {
@@ -320,7 +371,8 @@ func (e *env) runProgram(w *vtrace.Writer, p *program) {
 	pos := make([]int, len(readers))
 	closed := make([]bool, len(readers))
 	do := func(s step, cleanup bool) {
-		rec := map[string]any{"t": "step", "prog": p.Prog, "act": s.Act, "i": s.I, "n": 0, "ok": true, "cleanup": cleanup, "detail": ""}
+		rec := map[string]any{"t": "step", "prog": p.Prog, "act": s.Act, "i": s.I, "n": 0, "ok": true, "cleanup": cleanup, "detail": "",
+			"err2": "none", "forced": false}
 		if s.I < 1 || s.I > len(readers) {
 			rec["err"] = "other:no such reader"
 		} else {
@@ -331,6 +383,36 @@ func (e *env) runProgram(w *vtrace.Writer, p *program) {
 				cerr := r.Close()
 				closed[i] = true
 				rec["err"] = errClass(cerr)
+			case "ConcClose":
+				// two goroutines close the same reader.  direct mode: the fake inner
+				// reader keeps both inside Close at the same time.  storage mode: the
+				// inner reader's Close is not made for concurrent callers, so the two
+				// calls are made one after the other.
+				var errs [2]error
+				if p.Mode == "direct" && i < len(e.fakes) {
+					fr := e.fakes[i]
+					fr.arm(2)
+					start := make(chan struct{})
+					var wg sync.WaitGroup
+					for g := 0; g < 2; g++ {
+						wg.Add(1)
+						go func(g int) {
+							defer wg.Done()
+							<-start
+							errs[g] = r.Close()
+						}(g)
+					}
+					close(start)
+					wg.Wait()
+					fr.disarm()
+					rec["forced"] = true
+				} else {
+					errs[0] = r.Close()
+					errs[1] = r.Close()
+				}
+				closed[i] = true
+				rec["err"] = errClass(errs[0])
+				rec["err2"] = errClass(errs[1])
 			case "Read", "ReadAfterClose", "ReadToEnd":
 				want := p.StepBytes
 				if s.Act == "ReadToEnd" {
@@ -347,9 +429,11 @@ func (e *env) runProgram(w *vtrace.Writer, p *program) {
 				rec["err"] = "other:unknown act"
 			}
 		}
-		if es, _ := rec["err"].(string); strings.HasPrefix(es, "other:") {
-			rec["detail"] = es
-			rec["err"] = "other"
+		for _, f := range []string{"err", "err2"} {
+			if es, _ := rec[f].(string); strings.HasPrefix(es, "other:") {
+				rec["detail"] = es
+				rec[f] = "other"
+			}
 		}
 		rec["rb"] = rb()
 		rec["inuse"] = e.inUse(p.Mode)
